@@ -191,8 +191,9 @@ class Balancer:
 
         try:
             return op(*a.args[::-1])
-        except ClaripyOperationError as err:
-            raise ClaripyBalancerError(f"unable to reverse comparison {a.op} (ClaripyOperationError)") from err
+        except (ClaripyOperationError, AttributeError) as err:
+            # (AttributeError: the operands are Booleans - `(a < 0) == (a != 128)` - which the BV operation cannot take)
+            raise ClaripyBalancerError(f"unable to reverse comparison {a.op} ({type(err).__name__})") from err
 
     @staticmethod
     def _align_bv(a):
